@@ -10,6 +10,7 @@ from ..core.loader import AnalysisError
 from ..core.report import norm
 from ..core.symtab import UNKNOWN, ClassInfo, FuncInfo
 from ..engines import ordereval, regexlang
+from ..engines.ordereval import Obj
 
 PARSER = "spsdk/sbfile/sb2/sly_bd_parser.py"
 LEXER = "spsdk/sbfile/sb2/sly_bd_lexer.py"
@@ -148,10 +149,20 @@ def rule_op_table(ctx, g: Grammar) -> None:
                 acts.setdefault(f.node.lineno, (f, []))[1].append(syms[1])
         if not acts:
             raise AnalysisError(f"C19.op-table: no binary productions for {nt}")
+        import operator as _op
+        PY = {ast.Add: _op.add, ast.Sub: _op.sub, ast.Mult: _op.mul, ast.FloorDiv: _op.floordiv, ast.Mod: _op.mod, ast.LShift: _op.lshift, ast.RShift: _op.rshift,
+              ast.BitAnd: _op.and_, ast.BitOr: _op.or_, ast.BitXor: _op.xor, ast.Lt: _op.lt, ast.LtE: _op.le, ast.Gt: _op.gt, ast.GtE: _op.ge, ast.Eq: _op.eq, ast.NotEq: _op.ne,
+              ast.And: lambda x, y: x and y, ast.Or: lambda x, y: x or y}
+        pairs = [(13, 5), (-9, 4), (6, 3), (0, 7), (2, 0), (4, 4), (0, 0)]
         for _ln, (f, toks) in acts.items():
-            var, by_lit, other = _dispatch_branches(f, "token[1]")
-            if var is None:
-                raise AnalysisError(f"C19.op-table: dispatch variable (token[1]) not found in {f.qual}")
+            # the action evaluated on model tokens: for every operator literal the grammar accepts the result must be the reference
+            # operation on (operand 0, operand 1) - an if-chain, a table of operator functions or a match all evaluate alike
+            def run_action(items, **attrs):
+                tok_o = Obj(_items=tuple(items), **attrs)
+                try:
+                    return ordereval.Evaluator({"self": Obj(), "token": tok_o}, ctx.fold_sym(f), opaque_return=False).run(A.body_of(f.node))
+                except ordereval.Unsupported as ex:
+                    raise AnalysisError(f"C19.op-table: {f.qual} left the fragment: {ex}")
             for tok in toks:
                 lit = g.literal_of(tok)
                 construct = f"{PARSER}::BDParser.{nt} `{nt} {tok} {nt}`"
@@ -160,47 +171,36 @@ def rule_op_table(ctx, g: Grammar) -> None:
                 if lit not in ref:
                     raise AnalysisError(f"C19.op-table: no reference semantics for operator {lit!r}")
                 n_branches += 1
-                qs = by_lit.get(lit)
-                if not qs:
-                    chk.bad("C19.op-table", construct, f"no branch for operator {lit!r}", "every operator the grammar accepts is evaluated", A.loc(PARSER, f.node))
-                    continue
-                if any(q.end != "return" or q.last.value is None or len(q.stmts) != 2 for q in qs) or len({norm(q.last) for q in qs}) != 1:
-                    raise AnalysisError(f"C19.op-table: branch {lit!r} is not a single return")
-                node = qs[0].last
-                e = node.value
-                opcls = left = right = None
-                if isinstance(e, ast.BinOp):
-                    opcls, left, right = type(e.op), e.left, e.right
-                elif isinstance(e, ast.Compare) and len(e.ops) == 1:
-                    opcls, left, right = type(e.ops[0]), e.left, e.comparators[0]
-                elif isinstance(e, ast.BoolOp) and len(e.values) == 2:
-                    opcls, left, right = type(e.op), e.values[0], e.values[1]
-                ok = opcls is ref[lit] and left is not None and norm(left) == f"token.{nt}0" and norm(right) == f"token.{nt}1"
-                chk.decide(ok, "C19.op-table", construct, f"{lit!r} -> {ref[lit].__name__}(token.{nt}0, token.{nt}1)",
-                           f"operator {lit!r} evaluates `{norm(e)}`", f"token.{nt}0 {lit} token.{nt}1 with Python operator {ref[lit].__name__}", A.loc(PARSER, node))
-            # parenthesised form: when no operator matches, the inner value is returned
-            par = [q for q in other if not (q.end == "return" and q.last.value is not None and norm(q.last.value) in ("token[1]", var))]
-            chk.decide(bool(other) and not par, "C19.op-table", f"{PARSER}::BDParser.{nt} `LPAREN {nt} RPAREN`",
-                       "parenthesised expression returns its inner value", "; ".join(norm(q.last) if q.last is not None else q.end for q in par) or "no such path", "return token[1]", A.loc(PARSER, f.node))
+                pyf = PY[ref[lit]]
+                probs = []
+                for x, y in pairs:
+                    if ref[lit] in (ast.FloorDiv, ast.Mod) and y == 0:
+                        continue
+                    if ref[lit] in (ast.LShift, ast.RShift) and (y < 0 or y > 64):
+                        continue
+                    out = run_action([x, lit, y], **{f"{nt}0": x, f"{nt}1": y})
+                    want_v = pyf(x, y)
+                    if not (out.kind == "return" and out.value == want_v and type(out.value) is type(want_v)):
+                        probs.append(f"{x} {lit} {y} evaluates to {out.value!r} ({out.kind}), expected {want_v!r}")
+                chk.decide(not probs, "C19.op-table", construct, f"{lit!r} -> {ref[lit].__name__}(token.{nt}0, token.{nt}1) on {len(pairs)} operand pairs",
+                           "; ".join(probs[:2]), f"token.{nt}0 {lit} token.{nt}1 with Python operator {ref[lit].__name__}", A.loc(PARSER, f.node))
+            # parenthesised form: the inner value is returned
+            out = run_action(["(", 4711, ")"], **{f"{nt}": 4711})
+            chk.decide(out.kind == "return" and out.value == 4711, "C19.op-table", f"{PARSER}::BDParser.{nt} `LPAREN {nt} RPAREN`",
+                       "parenthesised expression returns its inner value", f"{out.kind} {out.value!r}", "return token[1]", A.loc(PARSER, f.node))
     chk.floor("C19.op-table", 18)
     # integer size suffixes
     for name, syms, f in g.rules_of("expr"):
         if syms == ["expr", "PERIOD", "INT_SIZE"]:
-            var, by_lit, _other = _dispatch_branches(f, "token[1]")
-            dot = by_lit.get(".") or []
-            if not dot:
-                raise AnalysisError("C19.int-size: '.' branch not found")
-            masks = {}
-            for q in dot:
-                for c, pol in q.conds:
-                    mm = re.fullmatch(r"\w+ == '(\w)'", c)
-                    if pol and mm and mm.group(1) in INT_SIZE_REF and q.end == "return":
-                        e = q.last.value
-                        if isinstance(e, ast.BinOp) and isinstance(e.op, ast.BitAnd) and norm(e.left) == "token[0]":
-                            masks.setdefault(mm.group(1), ctx.prog.fold(e.right, f.module))
             for ch, want in INT_SIZE_REF.items():
-                chk.decide(masks.get(ch) == want, "C19.int-size", f"{PARSER}::BDParser.expr `.{ch}`", f"suffix .{ch} masks with {hex(want)}",
-                           f"suffix .{ch} masks with {hex(masks[ch]) if isinstance(masks.get(ch), int) else masks.get(ch)}", f"{hex(want)} (word/half-word/byte = 32/16/8 bits)", A.loc(PARSER, f.node))
+                V = 0x1234_5678_9ABC_DEF1
+                try:
+                    out = ordereval.Evaluator({"self": Obj(), "token": Obj(_items=(V, ".", ch), INT_SIZE=ch, expr=V, expr0=V)}, ctx.fold_sym(f), opaque_return=False).run(A.body_of(f.node))
+                except ordereval.Unsupported as ex:
+                    raise AnalysisError(f"C19.int-size: {f.qual} left the fragment: {ex}")
+                got_m = out.value if out.kind == "return" else None
+                chk.decide(got_m == V & want, "C19.int-size", f"{PARSER}::BDParser.expr `.{ch}`", f"suffix .{ch} masks with {hex(want)}",
+                           f"suffix .{ch}: {hex(V)} becomes {hex(got_m) if isinstance(got_m, int) else got_m}", f"{hex(want)} (word/half-word/byte = 32/16/8 bits)", A.loc(PARSER, f.node))
     # unary
     for name, syms, f in g.rules_of("unary_expr"):
         pass
@@ -851,14 +851,17 @@ def rule_operands(ctx, g: Grammar) -> None:
     # identifiers resolve to the value of the variable of the same name
     for n2, syms, f in g.rules_of("expr"):
         if syms == ["IDENT"]:
-            ok = False
-            for lp in [n for n in A.walk_no_nested(f.node) if isinstance(n, ast.For)]:
-                for iff2 in [n for n in ast.walk(lp) if isinstance(n, ast.If)]:
-                    v = lp.target.id if isinstance(lp.target, ast.Name) else "?"
-                    if norm(iff2.test) in (f"{v}.name == token.IDENT", f"token.IDENT == {v}.name") and any(isinstance(s, ast.Return) and norm(s.value) == f"{v}.value" for s in iff2.body) \
-                            and norm(lp.iter) == "self._variables":
-                        ok = True
-            chk.decide(ok, "C19.operands", f"{PARSER}::BDParser.expr `IDENT`", "an identifier evaluates to the value of the variable of that name", "lookup shape changed", "for var in self._variables: if var.name == token.IDENT: return var.value", A.loc(PARSER, f.node))
+            # evaluated on a variable table with a duplicate name: the first variable of that name gives the value, an unknown
+            # identifier evaluates to its own text
+            vars_ = tuple(Obj(name=n_, value=v_) for n_, v_ in (("a", 1), ("b", 2), ("a", 3)))
+            got = {}
+            for ident in ("a", "b", "zz"):
+                try:
+                    out = ordereval.Evaluator({"self": Obj(_variables=vars_), "token": Obj(IDENT=ident, _items=(ident,))}, None, opaque_return=False).run(A.body_of(f.node))
+                except ordereval.Unsupported as ex:
+                    raise AnalysisError(f"C19.operands: {f.qual} left the fragment: {ex}")
+                got[ident] = out.value if out.kind == "return" else out.kind
+            chk.decide(got == {"a": 1, "b": 2, "zz": "zz"}, "C19.operands", f"{PARSER}::BDParser.expr `IDENT`", "an identifier evaluates to the value of the (first) variable of that name", f"{got}", "{'a': 1, 'b': 2, 'zz': 'zz'}", A.loc(PARSER, f.node))
     for n2, syms, f in g.rules_of("constant_def"):
         if syms[:2] == ["constant_def", "IDENT"]:
             c = [x for x in A.calls_in(f.node, "Variable")]
@@ -889,7 +892,14 @@ def rule_sections(ctx, g: Grammar) -> None:
     apps = [x for x in A.calls_in(outer, "append") if norm(x.func.value) == var]
     ctx.chk.decide(len(apps) == 1, "C19.sections", f"{fn.qual} append", "each statement appends exactly one command", f"{len(apps)} append sites", "1", A.loc(IMAGES, outer))
     disp = [x for x in A.calls_in(outer, "get_command")]
-    ctx.chk.decide(len(disp) == 1 and norm(disp[0].args[0]) == "key", "C19.sections", f"{fn.qual} dispatch", "handler is selected by the statement's own name", norm(disp[0]) if disp else "", "sb21_helper.get_command(key)", A.loc(IMAGES, outer))
+    key_ok = False
+    if len(disp) == 1 and disp[0].args:
+        # the argument is the key of the statement dictionary being iterated (`for <key>, <args> in <stmt>.items()`)
+        for anc in A.ancestors(disp[0]):
+            if isinstance(anc, ast.For) and isinstance(anc.target, ast.Tuple) and len(anc.target.elts) == 2 and isinstance(anc.iter, ast.Call) and A.call_name(anc.iter) == "items":
+                key_ok = norm(disp[0].args[0]) == norm(anc.target.elts[0])
+                break
+    ctx.chk.decide(len(disp) == 1 and key_ok, "C19.sections", f"{fn.qual} dispatch", "handler is selected by the statement's own name", norm(disp[0]) if disp else "", "sb21_helper.get_command(key)", A.loc(IMAGES, outer))
     # the section-level keys the parser emits
     sb = [f for n2, syms, f in g.rules_of("section_block") if "SECTION" in syms]
     keys = set()
